@@ -40,12 +40,12 @@ EXTENDS Integers, Sequences, FiniteSets, TLC
 CONSTANTS
     Others,      \* number of other dealers
     PhaseLen,    \* blocks per phase
+    DealBlock,   \* block carrying the commitments and evaluations of the other dealers
     AccBlock,    \* block carrying a (false) accusation against this keyper, -1 = none
     LoadMode,    \* "nilsafe" | "gobzero"
     MaxCrashes   \* bound on the number of crashes in one behaviour (guard of Crash, no state constraint)
 
 Off == 0   Dealing == 1   Accusing == 2   Apologizing == 3   Finalized == 4
-DealBlock == 1
 LastBlock == 3 * PhaseLen + 1
 
 CodeOk == 0   CodeError == 1   CodeSeen == 2
@@ -109,17 +109,20 @@ Load(mem, db) ==
     ELSE [mem EXCEPT !.synced = TRUE, !.has = db.pure, !.rec = IF db.pure THEN db.rec ELSE NoRec,
                      !.blocked = db.pure /\ LoadMode = "gobzero" /\ db.rec.phase <= Dealing /\ Missing(db.rec)]
 
-(* working record of one handleBlock: [has, rec, blocked, db] *)
+(* working record of one handleBlock: [has, rec, blocked, dirty, db]; dirty = ActiveDKG.dirty:
+   Save writes the puredkg row only for objects marked dirty, so every handler that changes the
+   object has to mark it (a change that is not marked lives in memory only and is lost with it) *)
 Queue(w, m) == [w EXCEPT !.db.outbox = Append(@, m)]
+Dirty(w) == [w EXCEPT !.dirty = TRUE]
 
 (* smstate.shiftPhase, one transition *)
 ShiftOnce(w, target) ==
     IF ~w.has \/ w.rec.phase >= target THEN w
     ELSE CASE w.rec.phase = Dealing ->
-                LET w1 == [w EXCEPT !.rec.phase = Accusing] IN
+                LET w1 == Dirty([w EXCEPT !.rec.phase = Accusing]) IN
                 IF w.rec.recv < Others THEN Queue(w1, M("acc", 0)) ELSE w1
            [] w.rec.phase = Accusing ->
-                LET w1 == [w EXCEPT !.rec.phase = Apologizing] IN
+                LET w1 == Dirty([w EXCEPT !.rec.phase = Apologizing]) IN
                 IF w.rec.accd THEN Queue(w1, M("apol", w.rec.poly)) ELSE w1
            [] w.rec.phase = Apologizing ->
                 (* finalizeDKG: puredkg row deleted, result + vote + eon key queued *)
@@ -134,36 +137,36 @@ Shift(w, h) == LET t == PhaseAt(h) IN ShiftOnce(ShiftOnce(ShiftOnce(w, t), t), t
 (* the events of block h in the order handleBlock applies them *)
 HandleOwn(w, m) ==
     IF ~w.has THEN w
-    ELSE CASE m.k = "commit" -> IF w.rec.phase <= Dealing /\ ~w.rec.own /\ ~w.blocked THEN [w EXCEPT !.rec.own = TRUE] ELSE w
-           [] m.k = "apol"   -> IF w.rec.phase = Apologizing THEN [w EXCEPT !.rec.apst = TRUE] ELSE w
+    ELSE CASE m.k = "commit" -> IF w.rec.phase <= Dealing /\ ~w.rec.own /\ ~w.blocked THEN Dirty([w EXCEPT !.rec.own = TRUE]) ELSE w
+           [] m.k = "apol"   -> IF w.rec.phase = Apologizing THEN Dirty([w EXCEPT !.rec.apst = TRUE]) ELSE w
            [] OTHER -> w      \* own evaluations are skipped, own accusations do not concern me
 
 RECURSIVE HandleOwns(_, _)
 HandleOwns(w, ms) == IF ms = <<>> THEN w ELSE HandleOwns(HandleOwn(w, Head(ms)), Tail(ms))
 
 HandleFixed(w, h) ==
-    LET w1 == IF w.has /\ h = DealBlock /\ w.rec.phase <= Dealing /\ ~w.blocked THEN [w EXCEPT !.rec.recv = Others] ELSE w
-    IN IF w1.has /\ h = AccBlock /\ w1.rec.phase = Accusing THEN [w1 EXCEPT !.rec.accd = TRUE] ELSE w1
+    LET w1 == IF w.has /\ h = DealBlock /\ w.rec.phase <= Dealing /\ ~w.blocked THEN Dirty([w EXCEPT !.rec.recv = Others]) ELSE w
+    IN IF w1.has /\ h = AccBlock /\ w1.rec.phase = Accusing THEN Dirty([w1 EXCEPT !.rec.accd = TRUE]) ELSE w1
 
-(* block 0: handleBatchConfig queues a check-in; handleEonStarted creates the object and shifts
-   it to Dealing: startPhase1Dealing draws the polynomial and queues the commitment; the
-   BeforeSaveHook (sendPolyEvals) queues the evaluations in the same transaction *)
+(* block 0 (the eon of an already registered keyper set is restarted): handleEonStarted creates
+   the object (dirty) and shifts it to Dealing: startPhase1Dealing draws the polynomial and queues
+   the commitment; the BeforeSaveHook (sendPolyEvals) queues the evaluations in the same
+   transaction *)
 HandleBlock0(w, fresh) ==
-    LET w1 == Queue(w, M("checkin", 0))
-        w2 == [w1 EXCEPT !.has = TRUE, !.rec = [NoRec EXCEPT !.phase = Dealing, !.poly = fresh]]
+    LET w2 == Dirty([w EXCEPT !.has = TRUE, !.rec = [NoRec EXCEPT !.phase = Dealing, !.poly = fresh]])
     IN Queue(Queue(w2, M("commit", fresh)), M("eval", fresh))
 
 (* smdriver.handleBlock for block h = db.sync + 1, inside one database transaction:
    [mem, db] = memory afterwards and staged database *)
 TxBody(s, h) ==
     LET m1 == Load(s.mem, s.db)
-        w0 == [has |-> m1.has, rec |-> m1.rec, blocked |-> m1.blocked,
+        w0 == [has |-> m1.has, rec |-> m1.rec, blocked |-> m1.blocked, dirty |-> FALSE,
                db |-> [s.db EXCEPT !.sync = h, !.rows = Append(@, h)]]
         w1 == Shift(w0, h)
         w2 == IF h = 0 THEN HandleBlock0(w1, FreshPoly(s))
               ELSE HandleFixed(HandleOwns(w1, s.blocks[h + 1]), h)
-        (* Save: the object, if there is one, is written back *)
-        w3 == IF w2.has THEN [w2 EXCEPT !.db.pure = TRUE, !.db.rec = w2.rec] ELSE w2
+        (* Save: the object, if there is one and it is dirty, is written back *)
+        w3 == IF w2.has /\ w2.dirty THEN [w2 EXCEPT !.db.pure = TRUE, !.db.rec = w2.rec] ELSE w2
     IN [mem |-> [m1 EXCEPT !.has = w3.has, !.rec = w3.rec], db |-> w3.db]
 
 (* shuttermint's answer to a broadcast of this keyper *)
